@@ -1,19 +1,31 @@
 (** C07  A running instance is displaced only for an instance ahead of it in the queue.
 
-    Proved on the model (Sched/FrameP.v), for every cell state, queue and placer:
+    Proved on the model:
+      C07_displaced_only_for_one_ahead   for every reachable state and the cycle run from it: an instance that sits on
+                                a server, is not blacklisted, not flagged for renewal, holds an identity valid for the
+                                current group size, is not ranked beyond the utilisation cap in this cycle's queue, is
+                                not due to be moved off an inactive server, and whose placement is still admissible for
+                                its allocation (partition label and traits of the server - the proviso that the known
+                                finding below shows to be necessary) EITHER is on the same server after the cycle OR
+                                some other instance that was NOT on that server before the cycle IS on it afterwards and
+                                had its turn strictly before it in the cycle's turn order (the concatenation of the
+                                partition queues).  The proof is a resource-accounting argument over the loop: the only
+                                way the restore of an evicted instance can be refused is that somebody new took the
+                                room or the affinity head-room on its server (Sched/DisplaceP.v restore_guard,
+                                find_placements_displaced; Sched/DisplaceC.v schedule_displaced; Sched/Reach.v);
       C07_victims_behind        the eviction scan run for a placer changes no instance other than the placer and the
-                                instances strictly behind it (scanning from the end of the queue up to the placer);
+                                instances strictly behind it;
       C07_attempt_touches_nobody_else   a fresh placement attempt for an instance changes no other instance;
-      C07_victims_on_up_servers / C07_blacklisted_inert   the scan never evicts from a server that is not up; a
-                                blacklisted instance causes no change at its turn.
-    Refuted on the code as it is (known finding, consequence of the stale-placement finding of C03):
+      C07_victims_on_up_servers / C07_blacklisted_inert.
+    Refuted without the admissibility proviso, on the code as it is (known finding, consequence of the stale-placement
+    finding of C03):
       C07_stale_refuted         an instance whose placement no longer satisfies its allocation's traits is evicted for
                                 an instance ahead of it that then fails to place, and cannot be restored.
-    Partial: the full statement (still on its server unless an instance strictly ahead gained a placement) needs the
-    loop invariant over queue positions of DESIGN.md section 7; it is decided by the correspondence (the queue and the
-    placement tuples are in every cycle digest) and the C07 oracle on the captured queue. *)
+    Side conditions of reachability (reachableA): those of C03/C05/C08 plus "instances of one affinity declare the same
+    limits" (the proviso of C04). *)
 From Coq Require Import ZArith QArith List Bool.
-From TM Require Import Sched.Vec Sched.Types Sched.Tree Sched.Cycle Sched.Events Sched.MapsP Sched.Steps Sched.FrameP.
+From TM Require Import Sched.Vec Sched.Types Sched.Queue Sched.Tree Sched.Cycle Sched.Events Sched.MapsP Sched.Steps Sched.FrameP
+                       Sched.InvAcct Sched.InvAff Sched.InvIdent Sched.TurnP Sched.CycleP Sched.KeepP Sched.DisplaceC Sched.Reach.
 Import ListNotations.
 Open Scope Z_scope.
 
@@ -39,6 +51,27 @@ Theorem C07_blacklisted_inert : forall rq st an a,
 Proof. exact place_one_blacklisted. Qed.
 Print Assumptions C07_blacklisted_inert.
 
+Theorem C07_displaced_only_for_one_ahead : forall c ch x a n s, reachableA c ->
+  get_app x (c_apps c) = Some a -> a_server a = Some n -> get_srv n (c_servers c) = Some s ->
+  a_blacklisted a = false -> a_renew a = false ->
+  (s_state s = Down -> expired c (s_since s) a = false) -> (s_state s = Frozen -> a_unschedule a = false) ->
+  (forall i g grp, a_identity a = Some i -> a_group a = Some g -> aget g (c_groups c) = Some grp -> i < g_count grp) ->
+  (forall l, app_label a = Some l -> l = s_label s) ->
+  (app_traits c a = 0 \/ has_traits (s_traits s) (app_traits c a) = true) ->
+  (forall label q e, In (label, q) (snd (fst (schedule c ch))) -> In e q -> e_app e = x -> e_rank e <> UNPLACED_RANK) ->
+  (exists a', get_app x (c_apps (step c (OSchedule ch))) = Some a' /\ a_server a' = Some n) \/
+  (exists z az bz l1 l2 l3,
+      turns (snd (fst (schedule c ch))) = l1 ++ z :: l2 ++ x :: l3 /\
+      get_app z (c_apps c) = Some az /\ a_server az <> Some n /\
+      get_app z (c_apps (step c (OSchedule ch))) = Some bz /\ a_server bz = Some n).
+Proof.
+  intros c ch x a n s Hr Ha Hsv Hs Hbl Hren Hd Hf Hid Hlab Htr Hrank.
+  apply (reachable_displaced c ch x a n s Hr); try assumption.
+  constructor; try assumption. intros i g k Hi Hg Hk. unfold gcount in Hk.
+  destruct (aget g (c_groups c)) as [grp|] eqn:E; [|discriminate]. inversion Hk; subst k. exact (Hid i g grp Hi Hg E).
+Qed.
+Print Assumptions C07_displaced_only_for_one_ahead.
+
 (** the code as it is: instance 1 runs on server 1000 (no traits); its allocation then requires trait 1;
     instance 2 (higher priority, too big for the free room) evicts it, still does not fit, and 1 cannot be restored *)
 Definition ex_a (n p o : Z) (d : vec) : app :=
@@ -57,3 +90,34 @@ Theorem C07_stale_refuted :
                    get_app 2 (c_apps c) = Some b /\ a_server b = None.
 Proof. vm_compute. do 4 eexists. repeat split; reflexivity. Qed.
 Print Assumptions C07_stale_refuted.
+
+(** non-vacuity of C07_displaced_only_for_one_ahead: both outcomes occur from reachable states.
+    [ex_ops_stay]: instance 1 (60) runs on the only server (100); instance 2 (priority 9, 200) is ahead, evicts it, does
+    not fit; 1 is restored.  [ex_ops_move]: instance 3 (priority 9, 90) is ahead, evicts 1 and fits; 1 is displaced and
+    3 - not on the server before - is on it afterwards. *)
+Definition ex_ops_stay : list op :=
+  [ OAddBucket 2001 3 2000; OAddServer 1000 2001 [100;100;100] 4000 0 0;
+    OAddApp 4000 [6000] (ex_a 1 1 1 [60;60;60]); OSchedule [];
+    OAddApp 4000 [6000] (ex_a 2 9 2 [200;200;200]) ].
+Definition ex_ops_move : list op :=
+  [ OAddBucket 2001 3 2000; OAddServer 1000 2001 [100;100;100] 4000 0 0;
+    OAddApp 4000 [6000] (ex_a 1 1 1 [60;60;60]); OSchedule [];
+    OAddApp 4000 [6000] (ex_a 3 9 3 [90;90;90]) ].
+Example C07_nonvacuous_reachable :
+  reachableA (run (init_cell 3 2000 1) ex_ops_stay) /\ reachableA (run (init_cell 3 2000 1) ex_ops_move).
+Proof.
+  split; [exists 3%nat, 2000, 1, ex_ops_stay|exists 3%nat, 2000, 1, ex_ops_move];
+    (split; [apply wf_ops_allb_sound; vm_compute; reflexivity|split; [apply wf_ops_affb_sound; vm_compute; reflexivity|reflexivity]]).
+Qed.
+Example C07_nonvacuous_outcomes :
+  let c1 := run (init_cell 3 2000 1) ex_ops_stay in
+  let c2 := run (init_cell 3 2000 1) ex_ops_move in
+  (option_map a_server (get_app 1 (c_apps c1)) = Some (Some 1000) /\
+   turns (snd (fst (schedule c1 []))) = [2; 1] /\
+   option_map a_server (get_app 1 (c_apps (step c1 (OSchedule [])))) = Some (Some 1000)) /\
+  (option_map a_server (get_app 1 (c_apps c2)) = Some (Some 1000) /\
+   turns (snd (fst (schedule c2 []))) = [3; 1] /\
+   option_map a_server (get_app 1 (c_apps (step c2 (OSchedule [])))) = Some None /\
+   option_map a_server (get_app 3 (c_apps c2)) = Some None /\
+   option_map a_server (get_app 3 (c_apps (step c2 (OSchedule [])))) = Some (Some 1000)).
+Proof. vm_compute. repeat split; reflexivity. Qed.
